@@ -29,6 +29,7 @@ type hdGenOpts struct {
 	gatedAlways    bool
 	virtual        bool
 	v2             bool // protocol 2.0 hellos (good tokens and mutated ones)
+	transient      bool // more transient-data requests (clients and the room request), permissions granted and withdrawn
 }
 
 type hdGen struct {
@@ -181,11 +182,17 @@ func (g *hdGen) join(c, b int, authed bool) hdOp {
 			if g.opts.perms {
 				pp = 75
 			}
+			if g.opts.transient {
+				pp = 55
+			}
 			if r.chance(pp) {
 				o.HasP = true
 				n := r.intn(5)
 				for i := 0; i < n; i++ {
 					o.Perm = append(o.Perm, r.intn(len(hdPermNames)))
+				}
+				if g.opts.transient && r.chance(50) {
+					o.Perm = append(o.Perm, 5) // transient-data
 				}
 			}
 			if r.chance(15) {
@@ -233,6 +240,9 @@ func (g *hdGen) apiOp(bk int) hdOp {
 				for j := 0; j < m; j++ {
 					u.Perm = append(u.Perm, r.intn(len(hdPermNames)))
 				}
+				if g.opts.transient && r.chance(50) {
+					u.Perm = append(u.Perm, 5) // transient-data granted through the participants API
+				}
 			}
 			l = append(l, u)
 		}
@@ -240,6 +250,22 @@ func (g *hdGen) apiOp(bk int) hdOp {
 	}
 	x := r.intn(10)
 	if g.opts.perms && r.chance(50) {
+		x = 3
+	}
+	if tc := map[bool]int{false: 7, true: 35}[g.opts.transient]; r.chance(tc) {
+		// the room request "transient" (values 11..13: what arrives from the bus is decoded JSON, what a client sets
+		// is raw JSON - the server never takes the two for equal, so the value pools are kept apart)
+		o.Api = "transient"
+		o.R = 1 + r.intn(2)
+		o.Tk = pick(r, []string{"set", "set", "set", "delete"})
+		o.Key = r.intn(3)
+		o.Tag = 11 + r.intn(3)
+		if r.chance(6) {
+			o.Tag = 0
+		}
+		return o
+	}
+	if g.opts.transient && r.chance(40) {
 		x = 3
 	}
 	if g.opts.virtual && r.chance(50) {
@@ -437,6 +463,18 @@ func (g *hdGen) hello(c int) hdOp {
 	}
 }
 
+func (g *hdGen) transientOp(c int) hdOp {
+	r := g.r
+	o := hdOp{K: "transient", C: c, Tk: pick(r, []string{"set", "set", "set", "set", "remove", "remove"}), Key: r.intn(3), Tag: 1 + r.intn(3)}
+	if r.chance(5) {
+		o.Tk = "bogus"
+	}
+	if o.Tk == "set" && r.chance(6) {
+		o.Tag = 0 // a set without value
+	}
+	return o
+}
+
 func (g *hdGen) removeConn(c int) {
 	for i, x := range g.conns {
 		if x == c {
@@ -525,6 +563,9 @@ func (g *hdGen) op() hdOp {
 	if g.opts.virtual && g.opts.api {
 		w["api"] = 22
 	}
+	if g.opts.transient {
+		w["transient"], w["join"], w["api"], w["msg"], w["drop"], w["resume"] = 30, 30, 18, 8, 10, 6
+	}
 	total := 0
 	order := []string{"join", "msg", "bye", "drop", "tick", "resume", "transient", "api", "internal", "media", "kick"}
 	for _, k := range order {
@@ -569,7 +610,7 @@ func (g *hdGen) op() hdOp {
 	case "resume":
 		return hdOp{K: "hello", C: c, Ht: "resume", Id: g.idref(true)}
 	case "transient":
-		return hdOp{K: "transient", C: c, Tk: pick(r, []string{"set", "remove"}), Key: 1 + r.intn(2), Tag: r.intn(5)}
+		return g.transientOp(c)
 	case "api":
 		return g.apiOp(r.intn(2))
 	case "internal":
@@ -596,7 +637,7 @@ func hdGenCase(r *vrng, id int, opts hdGenOpts, n int) *hdCase {
 	if r.chance(25) || opts.limits {
 		c.Backends[0].Limit = 1 + r.intn(3)
 	}
-	if opts.messages || opts.twoTenants || opts.virtual || opts.perms {
+	if opts.messages || opts.twoTenants || opts.virtual || opts.perms || opts.transient {
 		// a populated system first: several sessions of both backends in a few rooms, some in the call
 		k := 3 + r.intn(3)
 		for i := 1; i <= k; i++ {
